@@ -122,6 +122,9 @@ int main(int argc, char **argv) {
             int e = 0; vector<Edge_SP> es;
             for (int i = 0; i < n; i++) for (int j = i + 1; j < n; j++, e++) if (emask >> e & 1) { Edge_SP ed = G.addEdge(ns[i], ns[j]); if (rsel) { vector<Avoid::Point> r; r.push_back(ns[i]->getCentre()); for (auto &p : routes[rsel]) r.push_back(p); r.push_back(ns[j]->getCentre()); ed->setRoute(r); } es.push_back(ed); }
             string cdesc = "none";
+            // a centre-gap equality of 0 in a cardinal (separate-and-align) direction asks two nodes to coincide; writeTglf refuses that
+            // with a runtime_error by design, so it is not part of the round-trip alphabet
+            if (c1 >= 0 && (c1 % 8) < 4 && ((c1 / 8) % 2) == 0 && ((c1 / 16) % 2) == 0 && (c1 % 5) == 1) { ctx.count("skipped_coincidence_constraint"); ctx.done_case(); continue; }
             if (c1 >= 0) { int di = c1 % 8, gi = (c1 / 8) % 2, si = (c1 / 16) % 2; double gap = (c1 % 5) * 1.5 - 1.5; G.getSepMatrix().addSep(ns[0]->id(), ns[1]->id(), gts[gi], DIRS[di], sts[si], gap); cdesc = mcx::fmt("%s gt=%d st=%d gap=%g", DN[di], gi, si, gap);
                              if (n == 3) G.getSepMatrix().addSep(ns[2]->id(), ns[0]->id(), gts[1 - gi], DIRS[(di + 3) % 8], sts[si], 2.0); }
             string desc = mcx::fmt("n=%d edgemask=%d route#%d constraint=%s geom=%d", n, emask, rsel, cdesc.c_str(), geom);
